@@ -129,7 +129,106 @@ def esrl_lookup():
     raise X.ExtractError('ESRLPolicy::getActionProbability: action look-up has an unknown shape')
 
 
+GW = 'include/AIToolbox/Bandit/Policies/Utils/QGreedyPolicyWrapper.hpp'
+WO = 'src/MDP/Policies/WoLFPolicy.cpp'
+EI = 'include/AIToolbox/EpsilonPolicyInterface.hpp'
+CMPS = {'checkEqualGeneral': True, 'checkEqualSmall': False}
+
+
+def _body(flat, sig, what):
+    m = X.find1(sig, flat, what)
+    return block_after(flat, m.end() - 1)
+
+
+def greedy_shape():
+    """Form of the three members of QGreedyPolicyWrapper.
+    as written (maxFirst = False): running maximum + tolerance test in one scan —
+        sampleAction            `if ( CMP(val, bestValue) ) {…} else if ( val > bestValue ) {…}`
+        getActionProbability    `if ( CMP(val, max) ) ++count; else if ( val > max ) { return 0.0; }`  with max = q_[a]
+        getPolicy               pass 1 `if ( CMP(val, max) ) ++count; else if ( val > max ) { max = val; count = 1; }`, pass 2 `if ( CMP(q_[aa], max) ) p[aa] = 1.0 / count; else p[aa] = 0.0;`
+    repaired (maxFirst = True): `q_.maxCoeff()` first, then `CMP(q_[..], max)` only.
+    Returns (maxFirst, [cmpSample, cmpProb, cmpPol1, cmpPol2]) with True = checkEqualGeneral, False = checkEqualSmall."""
+    src = X.strip_comments(X.read(GW))
+    flat = re.sub(r'\s+', ' ', src)
+    C = r'(checkEqualGeneral|checkEqualSmall)'
+    bs = _body(flat, r'size_t QGreedyPolicyWrapper<V, Gen>::sampleAction\(\) \{', 'QGreedyPolicyWrapper::sampleAction')
+    bp = _body(flat, r'double QGreedyPolicyWrapper<V, Gen>::getActionProbability\(const size_t a\) const \{', 'QGreedyPolicyWrapper::getActionProbability')
+    bt = _body(flat, r'void QGreedyPolicyWrapper<V, Gen>::getPolicy\(P && p\) const \{', 'QGreedyPolicyWrapper::getPolicy')
+    pick = r'auto pickDistribution = std::uniform_int_distribution<unsigned>\(0, bestActionCount ?- ?1\); const unsigned selection = pickDistribution\(rand_\); return buffer_\[selection\];'
+    if not re.search(pick, bs):
+        raise X.ExtractError('QGreedyPolicyWrapper::sampleAction: uniform pick over the tie list has an unknown shape')
+    pass2 = r'for \( ?size_t aa = 0; aa < buffer_\.size\(\); \+\+aa ?\) \{ if \( ?' + C + r'\(q_\[aa\], max\) ?\) p\[aa\] = 1\.0 / count; else p\[aa\] = 0\.0; \}'
+    m2 = re.search(pass2, bt)
+    if not m2:
+        raise X.ExtractError('QGreedyPolicyWrapper::getPolicy: second pass has an unknown shape')
+    # as written
+    ws = re.search(r'buffer_\[0\] = 0; double bestValue = q_\[0\]; unsigned bestActionCount = 1; for \( ?size_t a = 1; a < buffer_\.size\(\); \+\+a ?\) \{ const double val = q_\[a\]; '
+                   r'if \( ?' + C + r'\(val, bestValue\) ?\) \{ buffer_\[bestActionCount\] = a; \+\+bestActionCount; \} '
+                   r'else if \( ?val > bestValue ?\) \{ buffer_\[0\] = a; bestActionCount = 1; bestValue = val; \} \}', bs)
+    wp = re.search(r'const double max = q_\[a\]; unsigned count = 0; for \( ?size_t aa = 0; aa < buffer_\.size\(\); \+\+aa ?\) \{ const double val = q_\[aa\]; '
+                   r'if \( ?' + C + r'\(val, max\) ?\) \+\+count; else if \( ?val > max ?\) \{ return 0\.0; \} \} return 1\.0 / count;', bp)
+    wt = re.search(r'double max = q_\[0\]; unsigned count = 1; for \( ?size_t aa = 1; aa < buffer_\.size\(\); \+\+aa ?\) \{ const double val = q_\[aa\]; '
+                   r'if \( ?' + C + r'\(val, max\) ?\) \+\+count; else if \( ?val > max ?\) \{ max = val; count = 1; \} \}', bt)
+    # repaired: maximum first
+    cnt = r'unsigned count = 0; for \( ?size_t aa = 0; aa < buffer_\.size\(\); \+\+aa ?\) if \( ?' + C + r'\(q_\[aa\], max\) ?\) \+\+count;'
+    rs = re.search(r'const double bestValue = q_\.maxCoeff\(\); unsigned bestActionCount = 0; for \( ?size_t a = 0; a < buffer_\.size\(\); \+\+a ?\) '
+                   r'if \( ?' + C + r'\(q_\[a\], bestValue\) ?\) buffer_\[bestActionCount\+\+\] = a;', bs)
+    rp = re.search(r'const double max = q_\.maxCoeff\(\); if \( ?!' + C + r'\(q_\[a\], max\) ?\) return 0\.0; ' + cnt + r' return 1\.0 / count;', bp)
+    rt = re.search(r'const double max = q_\.maxCoeff\(\); ' + cnt, bt)
+    ln = X.lineno(src, src.find('::sampleAction()'))
+    if ws and wp and wt and not (rs or rp or rt):
+        return False, [CMPS[ws.group(1)], CMPS[wp.group(1)], CMPS[wt.group(1)], CMPS[m2.group(1)]], ln
+    if rs and rp and rt and not (ws or wp or wt):
+        if rp.group(1) != rp.group(2):
+            raise X.ExtractError('QGreedyPolicyWrapper::getActionProbability: two different tolerance tests')
+        return True, [CMPS[rs.group(1)], CMPS[rp.group(1)], CMPS[rt.group(1)], CMPS[m2.group(1)]], ln
+    raise X.ExtractError('QGreedyPolicyWrapper: the three scans have an unknown shape')
+
+
+def other_sites():
+    """Further syntactic facts the theorems / driver rely on (pinned; any other shape is a broken tie):
+    WoLFPolicy::stepUpdateP's own copy of the greedy scan (comparator returned), the T ~ 0 delegation test of the three softmax members,
+    the `u <= epsilon` test and the mixture of both EpsilonPolicyInterface specialisations, Thompson's strict `>` and its unvisited-arm exit."""
+    w = re.sub(r'\s+', ' ', X.strip_comments(X.read(WO)))
+    m = re.search(r'if \( ?(checkEqualGeneral|checkEqualSmall)\(qsa, bestQValue\) ?\) \{ bestActions\[bestActionCount\] = a; \+\+bestActionCount; \} '
+                  r'else if \( ?qsa > bestQValue ?\) \{ bestActions\[0\] = a; bestActionCount = 1; bestQValue = qsa; \}', w)
+    if not m:
+        raise X.ExtractError('WoLFPolicy::stepUpdateP: best-action scan has an unknown shape')
+    if not re.search(r'finalDelta = actualValue > avgValue \? deltaW_ : deltaL_;', w):
+        raise X.ExtractError('WoLFPolicy::stepUpdateP: learning-rate choice has an unknown shape')
+    sm = re.sub(r'\s+', ' ', X.strip_comments(X.read(SM)))
+    if len(re.findall(r'if \( ?checkEqualSmall\(temperature_, 0\.0\) ?\) \{ auto wrap = QGreedyPolicyWrapper\(q_, buffer_, rand_\); return wrap\.', sm)) != 3:
+        raise X.ExtractError('QSoftmaxPolicyWrapper: the T ~ 0 delegation to QGreedyPolicyWrapper has an unknown shape')
+    e = re.sub(r'\s+', ' ', X.strip_comments(X.read(EI)))
+    if len(re.findall(r'if \( ?probabilityDistribution\(this->rand_\) <= epsilon_ ?\) return sampleRandomAction\(\); return policy_\.sampleAction\(s?\);', e)) != 2:
+        raise X.ExtractError('EpsilonPolicyInterface::sampleAction: unknown shape')
+    if len(re.findall(r'return \( ?1\.0 - epsilon_ ?\) \* policy_\.getActionProbability\((?:s, ?)?a\) \+ epsilon_ \* getRandomActionProbability\(\);', e)) != 2:
+        raise X.ExtractError('EpsilonPolicyInterface::getActionProbability: unknown shape')
+    if len(re.findall(r'if \( ?e < 0\.0 \|\| e > 1\.0 ?\) throw std::invalid_argument', e)) != 2:
+        raise X.ExtractError('EpsilonPolicyInterface::setEpsilon: range guard has an unknown shape')
+    t = re.sub(r'\s+', ' ', X.strip_comments(X.read(TH)))
+    if not re.search(r'if \( ?counts\[a\] < 2 ?\) return a;', t) or not re.search(r'if \( ?val > bestValue ?\) \{ bestAction = a; bestValue = val; \}', t):
+        raise X.ExtractError('ThompsonSamplingPolicy::sampleAction: selection loop has an unknown shape')
+    return CMPS[m.group(1)]
+
+
+CORE = 'include/AIToolbox/Utils/Core.hpp'
+
+
+def core_shape():
+    """The two tolerance comparisons the model's `ceS` / `ceG` transcribe (the constants come from tools/extract.py)."""
+    c = re.sub(r'\s+', ' ', X.strip_comments(X.read(CORE)))
+    if not re.search(r'inline bool checkEqualSmall\(const double a, const double b\) \{ return \( ?std::fabs\(a - b\) <= equalToleranceSmall ?\); \}', c):
+        raise X.ExtractError('checkEqualSmall(double,double): unknown shape')
+    if not re.search(r'inline bool checkEqualGeneral\(const double a, const double b\) \{ if \( ?checkEqualSmall\(a, ?b\) ?\) return true; '
+                     r'return \( ?std::fabs\(a - b\) <= std::min\(std::fabs\(a\), std::fabs\(b\)\) \* equalToleranceGeneral ?\); \}', c):
+        raise X.ExtractError('checkEqualGeneral(double,double): unknown shape')
+
+
 def gen_c09():
+    core_shape()
+    gmf, gc, gln = greedy_shape()
+    wolfG = other_sites()
     ef, efl = esrl_lookup()
     th, thl = thompson_init()
     pr, prl = project_shape()
@@ -146,6 +245,15 @@ def gen_c09():
             f'def smSubtractMax : Bool := {b(shift)}',
             f'/-- {ES}:{efl} — getActionProbability looks the action up with std::find (true) / std::lower_bound (false) -/',
             f'def esrlProbUsesFind : Bool := {b(ef)}',
+            f'/-- {GW}:{gln} — the three members look for the maximum first (q_.maxCoeff()) and tie-test against it (true), or keep a running maximum (false, as first read) -/',
+            f'def greedyMaxFirst : Bool := {b(gmf)}',
+            f'/-- {GW} — tolerance test at the four sites (sampleAction, getActionProbability, getPolicy pass 1, pass 2): true = checkEqualGeneral, false = checkEqualSmall -/',
+            f'def greedyCmpSampleG : Bool := {b(gc[0])}',
+            f'def greedyCmpProbG : Bool := {b(gc[1])}',
+            f'def greedyCmpPol1G : Bool := {b(gc[2])}',
+            f'def greedyCmpPol2G : Bool := {b(gc[3])}',
+            f'/-- {WO} — tolerance test of stepUpdateP\'s own greedy scan: true = checkEqualGeneral -/',
+            f'def wolfCmpG : Bool := {b(wolfG)}',
             '', 'end AITB.Gen.C09', '']
     X.write_if_changed('C09', '\n'.join(body))
 
